@@ -384,11 +384,22 @@ class Interp:
             return
         if isinstance(t, (ast.Tuple, ast.List)):
             seq = _concrete_seq(v)
+            if seq is None and isinstance(v, (Arr, ArrParam)):
+                A = as_arr(v)
+                k = A.axes[0][1].as_int() if A.axes else None
+                if k is not None and k == len(t.elts):
+                    seq = [arr_index(A, X.const(i)) for i in range(k)]
             if seq is None:
                 if isinstance(v, PV):
                     parts = []
+                    def pick(x, i):
+                        if isinstance(x, (tuple, list)) and len(x) > i: return x[i]
+                        if isinstance(x, (Arr, ArrParam)):
+                            A = as_arr(x)
+                            if A.axes and A.axes[0][1].as_int() == len(t.elts): return arr_index(A, X.const(i))
+                        return Opaque("unpack")
                     for i in range(len(t.elts)):
-                        parts.append(pv_apply(lambda x, i=i: (x[i] if isinstance(x, (tuple, list)) and len(x) > i else Opaque("unpack")), v))
+                        parts.append(pv_apply(lambda x, i=i: pick(x, i), v))
                     seq = parts
                 else:
                     seq = [Opaque("unpack of non-sequence " + type(v).__name__)] * len(t.elts)
